@@ -101,11 +101,11 @@ theorem park_fast_ok_sound (sched : List (Actor × Env))
 -- which returns `Timeout` although it has no time-out.
 example : (let s := run init [
       (.P, .park 5), (.P, .go), (.P, .go), (.P, .go), (.P, .go), (.P, .go),          -- call 1 switches out
-      (.K, .go), (.K, .go), (.K, .go), (.K, .go), (.K, .go), (.K, .go), (.K, .go),   -- subscribe: arms the timer, sleeps
+      (.K, .go), (.K, .go), (.K, .go), (.K, .go), (.K, .go), (.K, .go), (.K, .go), (.K, .go),   -- subscribe: arms the timer, sleeps
       (.V 0, .unpark), (.V 0, .go), (.V 0, .go), (.T, .popOwn), (.V 0, .go), (.S, .go),   -- unpark wins; the timer thread has popped the entry
       (.P, .go), (.P, .go), (.P, .go), (.P, .go), (.P, .go), (.P, .go),              -- call 1 returns Ok
       (.P, .park 0), (.P, .go), (.P, .go), (.P, .go), (.P, .go), (.P, .go),          -- call 2: untimed
-      (.K, .go), (.K, .go), (.K, .go), (.K, .go), (.K, .go), (.K, .go), (.K, .go),
+      (.K, .go), (.K, .go), (.K, .go), (.K, .go), (.K, .go), (.K, .go), (.K, .go), (.K, .go),
       (.T, .go), (.T, .go),                                                           -- the stale timer takes the coroutine
       (.P, .go), (.P, .go), (.P, .go), (.P, .go), (.P, .go)]
     s.ppc = .u7 ∧ s.para = .timedOut ∧ s.paraOwn = false ∧ s.dur = 0 ∧ s.rnd = 2) := by decide
@@ -113,14 +113,14 @@ example : (let s := run init [
 /-- **Defect F6** (a timed park can sleep for ever): `Park::subscribe` arms the timer (`k0`) BEFORE it publishes the
     coroutine (`k2`: `wait_co.store`). If the entry expires in between, the timer thread's `take` finds the slot empty
     and the time-out is lost: the parker is suspended in a park_timeout(5 ms), its timer is gone, nobody has an
-    enabled step. Witness schedule: P switches out; `K5` (cancel slot), `K0` arm; T pops the entry, `T0` take on the
+    enabled step. Witness schedule: P switches out; `K5d K5` (cancel slot), `K0` arm; T pops the entry, `T0` take on the
     empty slot; `K1 K2 K3 K5c K6`. (Replayed on the real code with a stall between add_timer and wait_co.store: DESIGN §7.) -/
 theorem park_timeout_lost_F6 : ∃ sched : List (Actor × Env),
     (run init sched).ppc = .u3wait ∧ (run init sched).dur = 5 ∧ (run init sched).wco = true ∧
     (run init sched).own = .gone ∧ (run init sched).stale = 0 ∧ (run init sched).lostTmo = true ∧
     (∀ a e, a ≠ Actor.P → (e = .go ∨ e = .popOwn ∨ e = .popStale ∨ e = .rmOwn ∨ e = .rmStale) → step (run init sched) a e = none ∨ a = .D) :=
   ⟨[(.P, .park 5), (.P, .go), (.P, .go), (.P, .go), (.P, .go), (.P, .go),
-    (.K, .go), (.K, .go), (.T, .popOwn), (.T, .go),
+    (.K, .go), (.K, .go), (.K, .go), (.T, .popOwn), (.T, .go),
     (.K, .go), (.K, .go), (.K, .go), (.K, .go), (.K, .go)],
    by decide, by decide, by decide, by decide, by decide, by decide,
    by
@@ -191,28 +191,28 @@ example : (let s := run init [(.V 0, .unpark), (.V 0, .go), (.V 0, .go), (.P, .p
 -- unpark BETWEEN the parker's swap and the registration: the unparker's take finds the slot empty, the kernel tail's
 -- re-check finds `state` set and wakes the coroutine itself (fast_wake_up: nested resume)
 example : (let s := run init [(.P, .park 0), (.P, .go), (.P, .go), (.V 0, .unpark), (.V 0, .go), (.V 0, .go),
-      (.P, .go), (.P, .go), (.P, .go), (.K, .go), (.K, .go), (.K, .go), (.K, .go), (.K, .go), (.K, .go), (.K, .go),
+      (.P, .go), (.P, .go), (.P, .go), (.K, .go), (.K, .go), (.K, .go), (.K, .go), (.K, .go), (.K, .go), (.K, .go), (.K, .go),
       (.P, .go), (.P, .go), (.P, .go), (.P, .go), (.P, .go), (.P, .go)]
     s.ppc = .idle ∧ s.res = .ok ∧ s.kpc = .k6 ∧ s.wk = true ∧ s.resumes = 1) := by decide
 -- unpark AFTER the kernel tail went to sleep: `w` is set, the unparker is between swap and take (I2's witness);
 -- the hypotheses of `park_no_lost_wakeup` minus "nobody has a step" are met: w, suspended
 example : (let s := run init [(.P, .park 0), (.P, .go), (.P, .go), (.P, .go), (.P, .go), (.P, .go),
-      (.K, .go), (.K, .go), (.K, .go), (.K, .go), (.K, .go), (.K, .go), (.K, .go), (.V 3, .unpark), (.V 3, .go)]
+      (.K, .go), (.K, .go), (.K, .go), (.K, .go), (.K, .go), (.K, .go), (.K, .go), (.K, .go), (.V 3, .unpark), (.V 3, .go)]
     s.w = true ∧ susp s.ppc = true ∧ s.wco = true ∧ s.state = true ∧ s.vpcs s.lastV = .v1 ∧ s.kpc = .kidle) := by decide
 -- a timed park on a fresh Park ends by its own timer: Timeout
 example : (let s := run init [(.P, .park 3), (.P, .go), (.P, .go), (.P, .go), (.P, .go), (.P, .go),
-      (.K, .go), (.K, .go), (.K, .go), (.K, .go), (.K, .go), (.K, .go), (.K, .go), (.T, .popOwn), (.T, .go), (.T, .go),
+      (.K, .go), (.K, .go), (.K, .go), (.K, .go), (.K, .go), (.K, .go), (.K, .go), (.K, .go), (.T, .popOwn), (.T, .go), (.T, .go),
       (.P, .go), (.P, .go), (.P, .go), (.P, .go), (.P, .go)]
     s.ppc = .u7 ∧ s.para = .timedOut ∧ s.paraOwn = true ∧ s.rnd = 1) := by decide
 -- the wait_kernel guard at work: after a nested self-wake the parker finds `wait_kernel` set in its next call and
 -- yields instead of re-entering (`u1chk`), while the kernel tail still has its `store(false)` to do
 example : (let s := run init [(.V 0, .unpark), (.P, .park 0), (.P, .go), (.P, .go), (.V 0, .go), (.V 0, .go),
-      (.P, .go), (.P, .go), (.P, .go), (.K, .go), (.K, .go), (.K, .go), (.K, .go), (.K, .go), (.K, .go), (.K, .go),
+      (.P, .go), (.P, .go), (.P, .go), (.K, .go), (.K, .go), (.K, .go), (.K, .go), (.K, .go), (.K, .go), (.K, .go), (.K, .go),
       (.P, .go), (.P, .go), (.P, .go), (.P, .go), (.P, .go), (.P, .go), (.P, .park 0), (.P, .go), (.P, .go), (.P, .go)]
     s.ppc = .u1chk ∧ s.kpc = .k6 ∧ s.wk = true) := by decide
 -- a cancelled parker (check_cancel off, as in SyncBlocker) gets Canceled through the canceller's inner take
 example : (let s := run init [(.P, .setChk false), (.P, .go), (.P, .park 0), (.P, .go), (.P, .go), (.P, .go), (.P, .go), (.P, .go),
-      (.K, .go), (.K, .go), (.K, .go), (.K, .go), (.K, .go), (.K, .go), (.K, .go),
+      (.K, .go), (.K, .go), (.K, .go), (.K, .go), (.K, .go), (.K, .go), (.K, .go), (.K, .go),
       (.C, .cancel), (.C, .go), (.C, .go), (.C, .go), (.C, .go), (.S, .go),
       (.P, .go), (.P, .go), (.P, .go), (.P, .go)]
     s.ppc = .u7 ∧ s.para = .canceled ∧ s.cbit = true) := by decide
